@@ -774,3 +774,108 @@ func (g *Graph) Exits() []Point {
 	}
 	return out
 }
+
+// LoopPoints returns, for a range or for statement, the start of its body, the
+// loop head (where the next iteration is decided) and the point after the loop.
+func (g *Graph) LoopPoints(s ast.Stmt) (body, head, done Point, ok bool) {
+	bi, hi, di := -1, -1, -1
+	for _, b := range g.Blocks {
+		if b.Stmt != s {
+			continue
+		}
+		switch b.Kind {
+		case cfg.KindRangeBody, cfg.KindForBody:
+			bi = int(b.Index)
+		case cfg.KindRangeLoop, cfg.KindForLoop:
+			hi = int(b.Index)
+		case cfg.KindRangeDone, cfg.KindForDone:
+			di = int(b.Index)
+		}
+	}
+	if bi < 0 || hi < 0 || di < 0 {
+		return Point{}, Point{}, Point{}, false
+	}
+	return Point{bi, 0}, Point{hi, 0}, Point{di, 0}, true
+}
+
+// WhereBranch returns the point at which a break/continue/goto statement
+// executes. go/cfg turns these statements into edges, so they are not nodes:
+// the point is the end of the block that is current when the statement is
+// reached (found through the statement before it, or through the construct
+// whose body it opens).
+func (g *Graph) WhereBranch(br *ast.BranchStmt) (Point, bool) {
+	var list []ast.Stmt
+	par := g.parent[br]
+	var owner ast.Node = par
+	switch p := par.(type) {
+	case *ast.BlockStmt:
+		list = p.List
+		owner = g.parent[p]
+	case *ast.CaseClause:
+		list = p.Body
+	case *ast.CommClause:
+		list = p.Body
+	default:
+		return Point{}, false
+	}
+	idx := -1
+	for i, st := range list {
+		if st == ast.Stmt(br) {
+			idx = i
+		}
+	}
+	if idx < 0 {
+		return Point{}, false
+	}
+	blockOf := func(stmt ast.Node, kinds ...cfg.BlockKind) (Point, bool) {
+		for _, b := range g.Blocks {
+			if b.Stmt != stmt {
+				continue
+			}
+			for _, k := range kinds {
+				if b.Kind == k {
+					return Point{int(b.Index), len(b.Nodes)}, true
+				}
+			}
+		}
+		return Point{}, false
+	}
+	if idx == 0 {
+		switch o := owner.(type) {
+		case *ast.IfStmt:
+			if par == ast.Node(o.Body) {
+				return blockOf(o, cfg.KindIfThen)
+			}
+			return blockOf(o, cfg.KindIfElse)
+		case *ast.CaseClause:
+			return blockOf(o, cfg.KindSwitchCaseBody)
+		case *ast.CommClause:
+			return blockOf(o, cfg.KindSelectCaseBody)
+		case *ast.ForStmt:
+			return blockOf(o, cfg.KindForBody)
+		case *ast.RangeStmt:
+			return blockOf(o, cfg.KindRangeBody)
+		}
+		return Point{}, false
+	}
+	switch prev := list[idx-1].(type) {
+	case *ast.IfStmt:
+		return blockOf(prev, cfg.KindIfDone)
+	case *ast.ForStmt:
+		return blockOf(prev, cfg.KindForDone)
+	case *ast.RangeStmt:
+		return blockOf(prev, cfg.KindRangeDone)
+	case *ast.SwitchStmt, *ast.TypeSwitchStmt:
+		return blockOf(prev, cfg.KindSwitchDone)
+	case *ast.SelectStmt:
+		return blockOf(prev, cfg.KindSelectDone)
+	case *ast.BlockStmt, *ast.LabeledStmt:
+		return Point{}, false
+	default:
+		if p, ok := g.where[prev]; ok {
+			// the end of the block that holds the previous simple statement
+			return Point{p.B, len(g.Blocks[p.B].Nodes)}, true
+		}
+	}
+	return Point{}, false
+}
